@@ -109,6 +109,7 @@ class Result:
         self.labels_outside_loops: list[tuple[str, int]] = []  # defined neither in a loop iteration nor in anything nested in one
         self.stmt_spans: list[tuple[int, int]] = []  # (offset, length) of each emitting statement
         self.stats: dict = {}
+        self.free_base = False  # the program emits before its first *=: offsets of that part are not specified
 
     def image(self):
         img = {}
@@ -334,7 +335,10 @@ class Assembler:
                 if kind == "rom_out":
                     raise Unspecified("@= below the window")
                 if run is None:
-                    raise Unspecified("@= before any *=")
+                    # no *= yet: the run address is set, where the bytes are stored is not specified (free_base)
+                    res.free_base = True
+                    off = 0
+                    placed.append(((("org", scope, {"k": "org", "a": None, "src": st})), a, 0))
                 run = a
                 relocated = True
                 self.stats["reloc"] += 1
